@@ -104,6 +104,8 @@ type Config struct {
 	// ProposerAny lets the stub pick any member of the validator set as proposer, including
 	// one the application can no longer resolve (known finding K1); otherwise it is avoided
 	ProposerAny bool `json:"proposer_any,omitempty"`
+	// HugeAmounts allows amounts of 2^128..2^255 (trigger-allowed runs for the known integer-overflow findings)
+	HugeAmounts bool `json:"huge_amounts,omitempty"`
 }
 
 // Actor keys: all derived from the seed.
